@@ -12,10 +12,13 @@ CliPairs == <<
   P(O1("k0", Num(8)), O1("k0", Num(9))),
   P(O1("k0", O1("k1", Arr(<<N1, O1("k2", N2)>>))), O2("k0", O1("k1", Arr(<<N1, O1("k2", N3)>>)), "k1", Bool(TRUE))),
   P(Arr(<<N1, N1, N2>>), Arr(<<N1, N2, N2>>)),
-  P(Void, O1("k0", N1)) >>
-PairIds == 1..Len(CliPairs)
+  P(Void, O1("k0", N1)),
+  \* more than 64 KiB on one line, but short arrays at every level (jd's LCS is quadratic in the array length)
+  P(Arr([r \in 1..300 |-> Arr([i \in 1..120 |-> Num(8 * ((i + r) % 7))])]),
+    Arr([r \in 1..300 |-> Arr([i \in 1..120 |-> Num(8 * ((i + r + (IF r = 150 /\ i = 60 THEN 1 ELSE 0)) % 7))])])) >>
+PairIds == 1..8       \* pair 9 is the large one, used by BigInvocations only
 
-All == DiffInvocations(PairIds, PairIds \ {6}) \cup ErrorInvocations \cup TransInvocations({2, 6})
+All == DiffInvocations(PairIds, PairIds \ {6}) \cup ErrorInvocations \cup TransInvocations({2, 6}) \cup BigInvocations(9)
 ASSUME ndJsonSerialize(IOEnv.JDV_OUT \o "/invocations.ndjson", SetToSeq(All))
 ASSUME ndJsonSerialize(IOEnv.JDV_OUT \o "/clipairs.ndjson", CliPairs)
 ASSUME PrintT(<<"JDV-STAT", "invocations", Cardinality(All)>>)
